@@ -130,6 +130,10 @@ class StateMachine(metaclass=StateMachineMetaclass):
     def __getstate__(self):
         state = self.__dict__.copy()
         state["_rtc"] = self._engine._rtc
+        # the queue is not part of the state: remember an initial activation that is still pending
+        state["_initial_pending"] = any(
+            trigger_data.event == "__initial__" for trigger_data in self._engine._external_queue
+        )
         del state["_callbacks"]
         del state["_states_for_instance"]
         del state["_engine"]
@@ -138,6 +142,7 @@ class StateMachine(metaclass=StateMachineMetaclass):
     def __setstate__(self, state):
         listeners = state.pop("_listeners")
         rtc = state.pop("_rtc")
+        initial_pending = state.pop("_initial_pending", False)
         self.__dict__.update(state)
         self._callbacks = CallbacksRegistry()
         self._states_for_instance: Dict[State, State] = {}
@@ -146,7 +151,8 @@ class StateMachine(metaclass=StateMachineMetaclass):
 
         self._register_callbacks(list(listeners))
         self._engine = self._get_engine(rtc)
-        self._engine.start()
+        if initial_pending:
+            self._engine.start()
 
     def _get_initial_state(self):
         initial_state_value = (
